@@ -774,10 +774,11 @@ Theorem C02_total_charge_kept_dmrg : forall (F : ofield) (dqr : mx (Cx F) -> mx 
      hd [] qD = hd [] (m_qD psi) /\ last qD [] = last (m_qD psi) []).
 Proof. exact dmrg_total_charge_kept. Qed.
 Print Assumptions C02_total_charge_kept_dmrg.
-(* NOT PROVED (full statements): C02_total_charge_kept_dmrg with a truncating split (tol_split > 0: C10's contract [split_ok]
+(* NOT PROVED HERE (full statements): C02_total_charge_kept_dmrg with a truncating split (tol_split > 0: C10's contract [split_ok]
    used here is the exact split; needed would be "the kept part of a norm-one tensor is not zero", i.e. tol < 1, and the
-   renormalisation by the closing QR); the C10 operand conditions mps_shapeb / right_iso as consequences of C01 for
-   orth_right_model (proved in the C08/C10 link development, not restated here). *)
+   renormalisation by the closing QR) -- CLOSED IN ROUND 4 below: C02_total_charge_kept_dmrg2_weak / _every_tol;
+   the C10 operand conditions mps_shapeb / right_iso as consequences of C01 for orth_right_model (proved in the C08/C10 link
+   development, not restated here). *)
 
 (* ---- non-vacuity, round 3: a two-site TDVP run over Z[i] (L = 2, qd = [0;1], bond charges [0] [0;1] [1], identity operator,
         two time steps): the model returns, emits 6 calls (KH2, SPLITL, STR per step), every recorded call meets its contract
@@ -885,3 +886,357 @@ Proof.
   - intros split Hrun Hok. exact (dmrg2_mps_ok (Cx F) orth qr split _ H psi n A qD ens tr Hrun HokH Eqd Hpos Hh0 Hl0 Hd Eqd1 Hok1 Hh1 Hl1 Hok).
 Qed.
 Print Assumptions C02_dmrg_cap_run_sparse.
+
+(* ======================================================================================================================
+   ROUND 4 — the three items left open by round 3.  Proofs: Proofs/Hist4*.v; new model file Model/BondOpsF5.v.
+
+   (1) ZERO-TENSOR SPLIT.  [C02_history_inv] kept, for a SplitMerge step, the hypothesis [split_call_ok] ("valid input =>
+       the answer of split_matrix_svd is block sparse under the returned charges"), which C02_split_contract_from_C12 proves for
+       the model only when the merged matrix is NOT zero.  On a zero (or charge-forbidden, hence zero) matrix the code either
+       returns the dummy bond (no shared charge: u = e_0, s = [0], v = 0, label q0[:1], or [0] for a matrix without rows after
+       fix F5 -- Model/BondOps.v block_svd still returns q0[:1] = [] there; Model/BondOpsF5.v [block_svd5] is the mirror of the
+       code as it stands and agrees with block_svd on every matrix with a row, [C02_block_svd5_agrees]) or, when charges are
+       shared, runs LAPACK on zero blocks, gets singular values that are all zero and keeps NOTHING: bond dimension 0, q = [].
+       Both answers meet the contract ([C02_split_zero_matrix_contract], [C02_split_zero_bond]); with C12 for the non-zero
+       case: EVERY valid input ([C02_split_contract_all]).  [C02_history_inv_all_splits]: the result function of SplitMerge is
+       the executable model and the hypothesis is LAPACK's contract on the issued calls (numpy.linalg.svd on the blocks;
+       numpy.argsort only when the matrix is not zero; 0 <= tol < 1) -- [split_call_ok] is gone.  Same for the split calls of
+       the two-site sweeps ([C02_split_model_for_sweeps], [C02_lanczos5_calls_meet_contracts]).
+   (2) DMRG TOTAL CHARGE WITH tol_split > 0.  [C02_total_charge_kept_dmrg2_weak]: invariant "mixed canonical and NOT ZERO"
+       instead of C10's "norm one"; contracts: the Ritz vector is not zero, the product of the split factors of a non-zero
+       tensor is not zero and the orthonormal factor is an isometry, QR factorises.  [C02_truncated_split_keeps_nonzero]: that
+       split contract is a THEOREM for the model whenever 0 <= tol < 1 (C12: discarded weight <= tol * total), hence
+       [C02_total_charge_kept_dmrg2_every_tol] with LAPACK-level hypotheses only on the split calls.
+   (3) SOLVER CALLS RETURN.  [C02_solver_returns_iff_norm] (no contract): a call returns iff numiter >= 1 and the value
+       numpy.linalg.norm answers for the start tensor is > 0; [C02_solver_returns_iff]: under norm's contract on that one call,
+       iff numiter >= 1 and the start tensor is not zero (all three solvers and the repaired eigensolver);
+       [C02_nonzero_starts_meet_contracts]: traces.  Whole runs: [C02_dmrg2_eigensolver_calls_return_partial].
+   ====================================================================================================================== *)
+From PT Require Import Model.BondOpsF5.
+From PT Require Import Proofs.KrylovLanczos Proofs.KrylovMatvec Proofs.LinkFlatten.
+From PT Require Import Proofs.Hist4Zero Proofs.Hist4Top Proofs.Hist4Bool Proofs.Hist4Example.
+From PT Require Import Proofs.Hist4Charge Proofs.Hist4SplitNz Proofs.Hist4ChargeTop Proofs.Hist4ChargeBool Proofs.Hist4ChargeExample.
+From PT Require Import Proofs.Hist4Returns Proofs.Hist4ReturnsRun Proofs.Hist4ReturnsExample.
+From PT Require Import Proofs.SweepsCheck Proofs.SweepsExample.
+Open Scope nat_scope.
+
+(* ---- (1) zero-tensor split ---- *)
+(* the mirror of split_matrix_svd after fix F5 and the mirror used by C12 agree wherever the matrix has a row *)
+Theorem C02_block_svd5_agrees : forall (F : ofield) (dsvd : mx (Cx F) -> mx (Cx F) * list F * mx (Cx F)) (pick : list F -> list nat)
+    (A : mx (Cx F)) (q0 q1 : list Z) (tol : F),
+  0 < nr A -> block_svd5 dsvd pick A q0 q1 tol = block_svd dsvd pick A q0 q1 tol.
+Proof. exact block_svd5_rows. Qed.
+Print Assumptions C02_block_svd5_agrees.
+
+(* a zero matrix that passes the assertions of split_matrix_svd: the answer has len(q) = len(s) = bond dimension, the shapes
+   chain, and both factors are block sparse under (q0, q) and (q, q1) -- for every tolerance; hypothesis: LAPACK's SVD contract
+   on the (zero) blocks actually decomposed (none in the dummy branch) *)
+Theorem C02_split_zero_matrix_contract : forall (F : ofield) (dsvd : mx (Cx F) -> mx (Cx F) * list F * mx (Cx F)) (pick : list F -> list nat)
+    (A : mx (Cx F)) (q0 q1 : list Z) (tol : F),
+  valid_in A q0 q1 = true -> is_zeromx A = true ->
+  Forall (fun B => dsvd_ok F B (dsvd B)) (block_svd_calls A q0 q1) ->
+  svd_ans_ok (Cx F) A q0 q1 (svd_result5 dsvd pick tol A q0 q1).
+Proof. exact svd_ans_zero. Qed.
+Print Assumptions C02_split_zero_matrix_contract.
+
+(* which answer: no shared charge -> one dummy bond with singular value 0 and the label q0[:1] (or [0]); shared charge -> the
+   bond dimension drops to ZERO *)
+Theorem C02_split_zero_bond : forall (F : ofield) (dsvd : mx (Cx F) -> mx (Cx F) * list F * mx (Cx F)) (pick : list F -> list nat)
+    (A : mx (Cx F)) (q0 q1 : list Z) (tol : F),
+  valid_in A q0 q1 = true -> is_zeromx A = true ->
+  Forall (fun B => dsvd_ok F B (dsvd B)) (block_svd_calls A q0 q1) ->
+  let '(u, s, v, q) := svd_result5 dsvd pick tol A q0 q1 in
+  (intersect1d q0 q1 = [] -> s = [k0 (Cx F)] /\ q = dummy_label A q0) /\ (intersect1d q0 q1 <> [] -> s = [] /\ q = []).
+Proof. exact svd_zero_bond. Qed.
+Print Assumptions C02_split_zero_bond.
+
+(* every valid input, zero or not *)
+Theorem C02_split_contract_all : forall (F : ofield) (dsvd : mx (Cx F) -> mx (Cx F) * list F * mx (Cx F)) (pick : list F -> list nat)
+    (A : mx (Cx F)) (q0 q1 : list Z) (tol : F),
+  valid_in A q0 q1 = true -> fle F (f0 F) tol -> flt F tol (f1 F) ->
+  Forall (fun B => dsvd_ok F B (dsvd B)) (block_svd_calls A q0 q1) ->
+  (is_zeromx A = false -> let S := block_svd_spectrum F dsvd A q0 q1 in pick_ok F (normsq S) (pick (normsq S))) ->
+  svd_ans_ok (Cx F) A q0 q1 (svd_result5 dsvd pick tol A q0 q1).
+Proof. exact split_contract_all. Qed.
+Print Assumptions C02_split_contract_all.
+
+(* the SplitMerge step: result function = the mirror; [split_lapack_ok] = LAPACK's contract on the calls of the one
+   split_matrix_svd (only if its assertions pass) *)
+Theorem C02_split_step_contract : forall (F : ofield) (dsvd : mx (Cx F) -> mx (Cx F) * list F * mx (Cx F)) (pick : list F -> list nat)
+    (tols : nat -> F) (O : oracles (Cx F)) (s : state (Cx F)) (i k distr tag : nat),
+  or_svd O tag = svd_result5 dsvd pick (tols tag) ->
+  (forall p, nth_error (states s) i = Some p ->
+     split_lapack_ok F dsvd pick (tols tag) (split_call (Cx F) k (m_qd p) (m_qD p) (m_A p))) ->
+  oracle_ok_at (Cx F) O s (SplitMerge i k distr tag).
+Proof. exact split_step_contract. Qed.
+Print Assumptions C02_split_step_contract.
+
+(* split_mps_tensor of the two-site sweeps = Model/MPSOps.v around the mirror ([split5]): the split contract of the sweeps
+   for EVERY block-sparse merged tensor *)
+Theorem C02_split_model_for_sweeps : forall (F : ofield) (dsvd : mx (Cx F) -> mx (Cx F) * list F * mx (Cx F)) (pick : list F -> list nat)
+    (ksqrt : Cx F -> Cx F) (tol : F) (p : nat) (Am : site (Cx F)) (q0 q1 q2 q3 : list Z) (left : bool),
+  0 < length q0 * length q1 ->
+  svd_lapack_ok F dsvd pick tol (split_matrix (length q0) (length q1) Am) (MPSOps.qflat q0 q2) (MPSOps.qflat (map Z.opp q1) q3) ->
+  site_okP (Cx F) (Sweeps.qflat q0 q1) q2 q3 Am ->
+  split_sp_ok (Cx F) q0 q1 q2 q3 (split5 F dsvd pick ksqrt tol p Am q0 q1 q2 q3 left).
+Proof. exact split5_sp_ok. Qed.
+Print Assumptions C02_split_model_for_sweeps.
+
+(* two-site traces with the Krylov solvers and the model split: what is left per call is "the solver call returns",
+   LAPACK's SVD / argsort contract on the split calls, C11's conclusion on the QR calls *)
+Theorem C02_lanczos5_calls_meet_contracts : forall (F : ofield) dnorm small deigh dexp dexpm numiter qr dsvd pick ksqrt (tol : F)
+    (Hs : list (osite (Cx F))) qd qWs (dt hdt : Cx F),
+  0 < length qd -> chainP (osite_okP (Cx F) qd) qWs Hs -> (forall j, j <= length Hs -> 0 < length (nth j qWs [])) ->
+  forall tr, lz5_tr_ok F dnorm small deigh dexp dexpm numiter qr dsvd pick ksqrt tol Hs dt hdt tr ->
+  sp2_tr_ok (Cx F) qr (split5 F dsvd pick ksqrt tol) (kexp_lanczos F dnorm small deigh dexp dexpm numiter)
+            (kexp0_lanczos F dnorm small deigh dexp dexpm numiter) (keig_lanczos F dnorm small deigh numiter) Hs qd qWs dt hdt tr.
+Proof. exact lz5_tr_sp. Qed.
+Print Assumptions C02_lanczos5_calls_meet_contracts.
+
+(* the history theorem: [model_oracles5] = model_oracles + "or_svd is the mirror of split_matrix_svd"; [contracts_ok5] =
+   contracts_ok with the SplitMerge clause replaced by [split_lapack_ok].  No hypothesis about the ANSWER of split_matrix_svd is
+   left; zero states, charge-forbidden states and bonds of dimension zero are covered. *)
+Theorem C02_history_inv_all_splits : forall (F : ofield) dqr dsvd pick cabs (tolf tols : nat -> F) orth qr split kexp kexp0 keig
+    (tdvp_par : nat -> Cx F * Cx F * nat) (dmrg_par : nat -> nat) (O : oracles (Cx F)),
+  model_oracles5 F dqr dsvd pick cabs tolf tols orth qr split kexp kexp0 keig tdvp_par dmrg_par O ->
+  forall (ops : list (op (Cx F))) (s : state (Cx F)),
+    Inv (Cx F) s -> contracts_ok5 F dqr dsvd pick cabs tolf tols orth qr split kexp kexp0 keig tdvp_par dmrg_par O ops s ->
+    Inv (Cx F) (run O ops s).
+Proof. exact history_inv5. Qed.
+Print Assumptions C02_history_inv_all_splits.
+
+Theorem C02_history_inv_all_splits_every_prefix : forall (F : ofield) dqr dsvd pick cabs (tolf tols : nat -> F) orth qr split kexp kexp0 keig
+    (tdvp_par : nat -> Cx F * Cx F * nat) (dmrg_par : nat -> nat) (O : oracles (Cx F)),
+  model_oracles5 F dqr dsvd pick cabs tolf tols orth qr split kexp kexp0 keig tdvp_par dmrg_par O ->
+  forall (ops1 ops2 : list (op (Cx F))) (s : state (Cx F)),
+    Inv (Cx F) s -> contracts_ok5 F dqr dsvd pick cabs tolf tols orth qr split kexp kexp0 keig tdvp_par dmrg_par O (ops1 ++ ops2) s ->
+    Inv (Cx F) (run O ops1 s).
+Proof. exact history_inv5_prefix. Qed.
+Print Assumptions C02_history_inv_all_splits_every_prefix.
+
+(* ---- non-vacuity (1): a history over Q[i] (Proofs/Hist4Example.v) on a zero state in an allowed sector (L = 3) and a state in
+        an unreachable sector (total charge 5): split at bond 1 of the zero state (shared charges: LAPACK is called on two zero
+        blocks, the bond dimension drops to 0), split at bond 2 (the matrix has no rows: dummy bond labelled [0], fix F5), split
+        of the forbidden state (dummy bond labelled q0[:1], the left factor e_0 is not zero), a subtraction and a 'sqrt' split.
+        Every step is performed, all hypotheses of C02_history_inv_all_splits hold (checked by the sound boolean [hist5b]), the
+        invariant holds before and after, and the bond dimensions / labels are those the implementation returns
+        ([0] [] [0] [1]; [0] [0] [5]; [0] [0] [5]). ---- *)
+Example C02_zero_split_nonvacuous :
+  model_oracles5 QcF ex4_dqr ex4_dsvd ex4_pick ex2_abs ex4_tolf ex4_tols ex4_orth (no_qr (Cx QcF)) ex4_split (no_kexp (Cx QcF))
+                 (no_kexp0 (Cx QcF)) (no_keig (Cx QcF)) ex4_tpar ex4_dpar ex4_O /\
+  Inv (Cx QcF) ex4_pool /\
+  contracts_ok5 QcF ex4_dqr ex4_dsvd ex4_pick ex2_abs ex4_tolf ex4_tols ex4_orth (no_qr (Cx QcF)) ex4_split (no_kexp (Cx QcF))
+                (no_kexp0 (Cx QcF)) (no_keig (Cx QcF)) ex4_tpar ex4_dpar ex4_O ex4_ops ex4_pool /\
+  match run_opt ex4_O ex4_ops ex4_pool with
+  | Some s => inv_b s && state_eqb s (run ex4_O ex4_ops ex4_pool) && Nat.eqb (length (states s)) 3 &&
+              zll_eqb (m_qD (nth 0 (states s) ex4_z3)) [[0]; []; [0]; [1]]%Z &&
+              zll_eqb (m_qD (nth 1 (states s) ex4_z3)) [[0]; [0]; [5]]%Z &&
+              zll_eqb (m_qD (nth 2 (states s) ex4_z3)) [[0]; [0]; [5]]%Z &&
+              mps_all_zero (nth 0 (states s) ex4_z3) && negb (mps_all_zero (nth 1 (states s) ex4_z3))
+  | None => false
+  end = true.
+Proof.
+  split. { split; [repeat split; reflexivity|intros tag; reflexivity]. }
+  split. { apply Inv_b. vm_compute. reflexivity. }
+  split. { apply hist5b_sound. vm_compute. reflexivity. }
+  vm_compute. reflexivity.
+Qed.
+
+(* ---- (2) total charge through two-site DMRG with a truncating split ---- *)
+(* the closing QR keeps psi.qD[0] as soon as the (mixed-canonical) state is not zero *)
+Theorem C02_final_qr_keeps_charge_nonzero : forall (F : ofield) qr (Hs : list (osite (Cx F))) qd qWs d DsW,
+  0 < length qd -> (forall j, j <= length Hs -> 0 < length (nth j qWs [])) ->
+  0 < d -> OperationChains.ochain_ok (repeat d (length Hs)) DsW Hs -> hd 0 DsW = 1 ->
+  forall st : sw (Cx F),
+  ZQ (Cx F) Hs qd qWs st 0 -> gBL st 0 = env_one -> SweepsInv.Z (Cx F) Hs d st 0 -> SweepsInv.NN (Cx F) Hs d (s_A st) <> k0 (Cx F) ->
+  1 <= length Hs ->
+  (let M := site_flat (site_tr (gA st 0)) in let q0 := Sweeps.qflat qd (Sweeps.zneg (gq st 1)) in let q1 := Sweeps.zneg (gq st 0) in
+   (bond_okP (Cx F) q0 q1 M -> qr_sp_ok (Cx F) M q0 q1 (qr (length (s_tr st)) M q0 q1)) /\ qr_ok M (qr (length (s_tr st)) M q0 q1)) ->
+  length (s_qD (dmrg_final_qr qr qd st)) = length (s_qD st) /\ gq (dmrg_final_qr qr qd st) 0 = gq st 0 /\
+  gq (dmrg_final_qr qr qd st) (length Hs) = gq st (length Hs).
+Proof. exact final_keeps_q0_nz. Qed.
+Print Assumptions C02_final_qr_keeps_charge_nonzero.
+
+(* whole runs, every L >= 1, ANY split function: contracts [sp2_tr_ok] (C02) and [wtr2_ok] on the calls issued --
+     EIG2  keig_nz: the answer has the shape of the start tensor and <u|u> <> 0
+     SPLIT (on a block-sparse tensor) split_nz: if <Am|Am> <> 0 then the shapes chain, the factor without the singular values
+           is an isometry and <A0.A1|A0.A1> <> 0
+     QR    qr_ok: M = Q R with orthonormal columns.
+   Conclusions: the returned qD[0], qD[L] are the input's, and every start tensor handed to the eigensolver was an array of
+   the merged shape with <Am|Am> <> 0 ([starts_nz]). *)
+Theorem C02_total_charge_kept_dmrg2_weak : forall (F : ofield) (dqr : mx (Cx F) -> mx (Cx F) * mx (Cx F)) (H : mpo (Cx F)) (psi : mps (Cx F))
+    (w : list nat) d DsW Ds0,
+  mps_ok psi = true -> orth_pre F psi -> Forall (qr_call_ok F dqr) (mps_orth_calls dqr false psi) ->
+  length w = length (m_A psi) -> Forall (fun s => s < length (m_qd psi)) w -> amp (m_A psi) w <> k0 (Cx F) ->
+  mpo_ok H = true -> o_qd H = m_qd psi -> Forall (fun q => 0 < length q) (o_qD H) ->
+  hd [] (o_qD H) = [0%Z] -> last (o_qD H) [] = [0%Z] ->
+  mpo_shapeb d DsW (o_A H) = true -> mps_shapeb d Ds0 (m_A (fst (orth_right_model F dqr psi))) = true ->
+  Forall right_iso (m_A (fst (orth_right_model F dqr psi))) ->
+  forall qr split keig n A qD ens tr,
+    dmrg_twosite (orth_right_model F dqr) qr split keig H psi n = Some (A, qD, ens, tr) ->
+    sp2_tr_ok (Cx F) qr split (no_kexp (Cx F)) (no_kexp0 (Cx F)) keig (o_A H) (m_qd psi) (o_qD H) (k0 (Cx F)) (k0 (Cx F)) (rev tr) ->
+    wtr2_ok qr split keig (o_A H) d (rev tr) ->
+    hd [] qD = hd [] (m_qD psi) /\ last qD [] = last (m_qD psi) [] /\ starts_nz F d (rev tr).
+Proof. exact dmrg2_total_charge_kept_nz. Qed.
+Print Assumptions C02_total_charge_kept_dmrg2_weak.
+
+(* C10's Ritz contract implies the weak eigensolver contract (the Ritz vector is normalised) *)
+Theorem C02_ritz_contract_implies_weak : forall (F : ofield) dd (BL BR : env (Cx F)) (W : osite (Cx F)) (Am : site (Cx F)) (ans : Cx F * site (Cx F)),
+  keig_ok dd BL BR W Am ans -> keig_nz dd Am ans.
+Proof. exact keig_ok_nz. Qed.
+Print Assumptions C02_ritz_contract_implies_weak.
+
+(* the truncated split of the executable model keeps a non-zero part whenever 0 <= tol < 1: [split_nz] is a theorem *)
+Theorem C02_truncated_split_keeps_nonzero : forall (F : ofield) (dsvd : mx (Cx F) -> mx (Cx F) * list F * mx (Cx F)) (pick : list F -> list nat)
+    (ksqrt : Cx F -> Cx F) (tol : F) (p : nat) (Am : site (Cx F)) (q0 q1 q2 q3 : list Z) (left : bool),
+  length q1 = length q0 -> 0 < length q0 ->
+  svd_lapack_ok F dsvd pick tol (split_matrix (length q0) (length q1) Am) (MPSOps.qflat q0 q2) (MPSOps.qflat (map Z.opp q1) q3) ->
+  site_okP (Cx F) (Sweeps.qflat q0 q1) q2 q3 Am ->
+  split_nz (length q0) left Am (split5 F dsvd pick ksqrt tol p Am q0 q1 q2 q3 left).
+Proof. exact split5_nz. Qed.
+Print Assumptions C02_truncated_split_keeps_nonzero.
+
+(* two-site DMRG with split_mps_tensor = the model at ANY tolerance 0 <= tol_split < 1: [dm5_tr_ok] asks, per recorded call,
+     EIG2   block sparse answer (a theorem for the Krylov solver whenever it returns) of the right shape, not zero
+     SPLIT  len(qd) = d, LAPACK's contract on numpy.linalg.svd / numpy.argsort, 0 <= tol < 1   (nothing about the answer)
+     QR     C11's conclusion and M = Q R with orthonormal columns *)
+Theorem C02_total_charge_kept_dmrg2_every_tol : forall (F : ofield) (dqr : mx (Cx F) -> mx (Cx F) * mx (Cx F)) dsvd pick ksqrt (tol : F)
+    (H : mpo (Cx F)) (psi : mps (Cx F)) (w : list nat) d DsW Ds0,
+  mps_ok psi = true -> orth_pre F psi -> Forall (qr_call_ok F dqr) (mps_orth_calls dqr false psi) ->
+  length w = length (m_A psi) -> Forall (fun s => s < length (m_qd psi)) w -> amp (m_A psi) w <> k0 (Cx F) ->
+  mpo_ok H = true -> o_qd H = m_qd psi -> Forall (fun q => 0 < length q) (o_qD H) ->
+  hd [] (o_qD H) = [0%Z] -> last (o_qD H) [] = [0%Z] ->
+  mpo_shapeb d DsW (o_A H) = true -> mps_shapeb d Ds0 (m_A (fst (orth_right_model F dqr psi))) = true ->
+  Forall right_iso (m_A (fst (orth_right_model F dqr psi))) ->
+  forall qr keig n A qD ens tr,
+    dmrg_twosite (orth_right_model F dqr) qr (split5 F dsvd pick ksqrt tol) keig H psi n = Some (A, qD, ens, tr) ->
+    dm5_tr_ok F qr keig dsvd pick tol (o_A H) (m_qd psi) (o_qD H) d (rev tr) ->
+    hd [] qD = hd [] (m_qD psi) /\ last qD [] = last (m_qD psi) [] /\ starts_nz F d (rev tr).
+Proof. exact dmrg2_total_charge_kept_tol. Qed.
+Print Assumptions C02_total_charge_kept_dmrg2_every_tol.
+(* NOT PROVED: that C10's exact-split contract [split_ok] implies [split_nz] (it does: A0.A1 = Am entrywise; not needed since
+   the model is covered for every tol); the analogue for SINGLE-site DMRG needs no new theorem (no split: C02_total_charge_kept_dmrg). *)
+
+(* ---- non-vacuity (2): two-site DMRG over Q[i] (Proofs/Hist4ChargeExample.v), L = 2, qd = [0; 1], bond charges [0] [0; 1] [1],
+        psi = 4/5 |01> + 3/5 |10>, H = identity, one sweep, tol_split = 1/2, split = the executable model with LAPACK's answers
+        on the two 1 x 1 blocks: the singular value 3/5 (cumulative weight 9/25 <= 1/2) is DISCARDED, the bond dimension drops
+        from 2 to 1, the state becomes 4/5 |01> (not zero) and is renormalised by the closing QR.  The run returns, its trace
+        (EIG2, SPLITL, STR, QR) meets [dm5_tr_ok] (sound boolean [dm5_okb]), the operand hypotheses of
+        C02_total_charge_kept_dmrg2_every_tol hold for the (already right-canonical) state, and the returned state satisfies
+        the invariant with qD = [0] [0] [1]: boundary charges kept, inner bond truncated.  (The run is only evaluated by
+        vm_compute casts on boolean equations.) ---- *)
+Example C02_dmrg2_truncating_nonvacuous :
+  (* the run returns; its trace passes the sound boolean form of [dm5_tr_ok]; result: invariant, qD = [0] [0] [1], 4 calls *)
+  match ex5_run with
+  | Some (A, qD, ens, tr) =>
+      dm5_okb ex5_qr ex5_dsvd ex5_pick ex5_tol 2 (rev tr) && mps_ok (mkmps (m_qd ex5_psi) qD A) &&
+      zll_eqb qD [[0]; [0]; [1]]%Z && Nat.eqb (length tr) 4 && zll_eqb (m_qD ex5_psi) [[0]; [0; 1]; [1]]%Z
+  | None => false
+  end = true /\
+  (forall A qD ens tr, ex5_run = Some (A, qD, ens, tr) ->
+     dm5_tr_ok QcF ex5_qr keig_id ex5_dsvd ex5_pick ex5_tol (o_A ex5_H) (m_qd ex5_psi) (o_qD ex5_H) 2 (rev tr)) /\
+  mps_ok ex5_psi = true /\ mpo_ok ex5_H = true /\ o_qd ex5_H = m_qd ex5_psi /\ Forall (fun q => 0 < length q) (o_qD ex5_H) /\
+  hd [] (o_qD ex5_H) = [0%Z] /\ last (o_qD ex5_H) [] = [0%Z] /\
+  mpo_shapeb 2 [1; 1; 1] (o_A ex5_H) = true /\ mps_shapeb 2 [1; 2; 1] (m_A (fst (ex5_orth ex5_psi))) = true /\
+  Forall right_iso (m_A (fst (ex5_orth ex5_psi))) /\
+  fle QcF (f0 QcF) ex5_tol /\ flt QcF (f0 QcF) ex5_tol /\ flt QcF ex5_tol (f1 QcF).
+Proof.
+  split; [vm_compute; reflexivity|]. split.
+  { intros A qD ens tr E. apply dm5_okb_ok.
+    refine (opt_check4 ex5_run (fun r => dm5_okb ex5_qr ex5_dsvd ex5_pick ex5_tol 2 (rev (snd r))) _ (A, qD, ens, tr) E).
+    vm_compute. reflexivity. }
+  split; [vm_compute; reflexivity|]. split; [vm_compute; reflexivity|]. split; [reflexivity|]. split; [repeat constructor|].
+  split; [reflexivity|]. split; [reflexivity|]. split; [vm_compute; reflexivity|]. split; [vm_compute; reflexivity|].
+  split; [repeat constructor; apply right_isob_ok; vm_compute; reflexivity|].
+  split; [vm_compute; reflexivity|]. split; vm_compute; reflexivity.
+Qed.
+
+(* ---- (3) when the Krylov-based local solvers return ---- *)
+(* no contract at all: the model raises only through  assert nrmv > 0  and  numiter = 0 *)
+Theorem C02_solver_returns_iff_norm : forall (F : ofield) dnorm small deigh dexp dexpm numiter (BL BR : env (Cx F)) (W : osite (Cx F))
+    (A : site (Cx F)) (t : Cx F),
+  (kexp_lanczos_returns F dnorm small deigh dexp dexpm numiter BL BR W A t <->
+   1 <= numiter /\ flt F (f0 F) (dnorm (site_vec F (length A) (sdl A) (sdr A) A))) /\
+  (keig_lanczos_returns F dnorm small deigh numiter BL BR W A <->
+   1 <= numiter /\ flt F (f0 F) (dnorm (site_vec F (length A) (sdl A) (sdr A) A))).
+Proof.
+  intros F dnorm small deigh dexp dexpm numiter BL BR W A t. split.
+  - exact (kexp_returns_iff_norm F dnorm small deigh dexp dexpm numiter BL BR W A t).
+  - exact (keig_returns_iff_norm F dnorm small deigh numiter BL BR W A).
+Qed.
+Print Assumptions C02_solver_returns_iff_norm.
+
+(* under numpy.linalg.norm's contract on the FIRST norm call (answer >= 0, square = sum |entries|^2; [uniform]: the start
+   tensor is an array): a call returns iff numiter >= 1 and the start tensor is not zero -- local Hamiltonian step (one-site
+   and merged two-site), local bond step, eigensolver, and the repaired eigensolver with numiter capped by Astart.size *)
+Theorem C02_solver_returns_iff : forall (F : ofield) dnorm small deigh dexp dexpm numiter (BL BR : env (Cx F)) (W : osite (Cx F))
+    (A : site (Cx F)) (C : mx (Cx F)) (t : Cx F),
+  (uniform F A -> norm_ok F (site_vec F (length A) (sdl A) (sdr A) A, dnorm (site_vec F (length A) (sdl A) (sdr A) A)) ->
+     (kexp_lanczos_returns F dnorm small deigh dexp dexpm numiter BL BR W A t <-> 1 <= numiter /\ site_dot A A <> k0 (Cx F)) /\
+     (keig_lanczos_returns F dnorm small deigh numiter BL BR W A <-> 1 <= numiter /\ site_dot A A <> k0 (Cx F)) /\
+     (keig_lanczos_cap_returns F dnorm small deigh numiter BL BR W A <-> 1 <= numiter /\ site_dot A A <> k0 (Cx F))) /\
+  (norm_ok F (site_vec F 1 (nr C) (nc C) [C], dnorm (site_vec F 1 (nr C) (nc C) [C])) ->
+     (kexp0_lanczos_returns F dnorm small deigh dexp dexpm numiter BL BR C t <-> 1 <= numiter /\ site_dot [C] [C] <> k0 (Cx F))).
+Proof.
+  intros F dnorm small deigh dexp dexpm numiter BL BR W A C t. split.
+  - intros HA Hn. split; [|split].
+    + exact (kexp_returns_iff F dnorm small deigh dexp dexpm numiter BL BR W A t HA Hn).
+    + exact (keig_returns_iff F dnorm small deigh numiter BL BR W A HA Hn).
+    + exact (keig_cap_returns_iff F dnorm small deigh numiter BL BR W A HA Hn).
+  - exact (kexp0_returns_iff F dnorm small deigh dexp dexpm numiter BL BR C t).
+Qed.
+Print Assumptions C02_solver_returns_iff.
+
+(* traces: the hypothesis "solver calls return" of C02_lanczos_calls_meet_contracts / C02_lanczos2_calls_meet_contracts is
+   "numiter >= 1 and every start tensor handed to a solver is a non-zero array" (+ norm's contract on the first norm call) *)
+Theorem C02_nonzero_starts_meet_contracts : forall (F : ofield) dnorm small deigh dexp dexpm numiter qr split
+    (Hs : list (osite (Cx F))) (dt hdt : Cx F), 1 <= numiter ->
+  (forall tr, nz_tr_ok F dnorm qr Hs tr -> lz_tr_ok F dnorm small deigh dexp dexpm numiter qr Hs dt hdt tr) /\
+  (forall tr, nz2_tr_ok F dnorm qr split Hs tr -> lz2_tr_ok F dnorm small deigh dexp dexpm numiter qr split Hs dt hdt tr).
+Proof.
+  intros F dnorm small deigh dexp dexpm numiter qr split Hs dt hdt Hm. split.
+  - exact (nz_tr_lz F dnorm small deigh dexp dexpm numiter qr Hs dt hdt Hm).
+  - exact (nz2_tr_lz2 F dnorm small deigh dexp dexpm numiter qr split Hs dt hdt Hm).
+Qed.
+Print Assumptions C02_nonzero_starts_meet_contracts.
+
+(* whole runs, PARTIAL: for two-site DMRG the start tensors are not zero because the STATE is not ([starts_nz], a conclusion of
+   C02_total_charge_kept_dmrg2_weak / _every_tol), so every call of the Krylov eigensolver (plain and repaired) returns.
+   MISSING (full statement): the same for both TDVP integrators and single-site DMRG --
+     forall runs, (state handed over has a non-zero amplitude) -> (norm's contract on the first norm call of each solver call,
+     the conserving / Ritz contracts of C08 / C10 on the calls issued) -> every KH / KH2 / KB / EIG call of the trace returns;
+   the invariants are there (C08: <A|A> is conserved and equals NN = 1 in mixed-canonical form; Proofs/LinkRunTDVP.v,
+   LinkRunDMRG.v derive "every start tensor is not zero" inside their bridges) but the per-call conclusion is not exported. *)
+Theorem C02_dmrg2_eigensolver_calls_return_partial : forall (F : ofield) dnorm small deigh numiter (Hs : list (osite (Cx F))) d,
+  0 < d -> 1 <= numiter ->
+  forall tr, starts_nz F d tr -> Forall (eig2_norm_ok F dnorm) tr -> Forall (eig2_returns F dnorm small deigh numiter Hs) tr.
+Proof. exact eig2_calls_return. Qed.
+Print Assumptions C02_dmrg2_eigensolver_calls_return_partial.
+
+(* ---- non-vacuity (3): the merged start tensor of the DMRG example (entries 0, 4/5, 3/5, 0) with an exact norm oracle: all
+        hypotheses of C02_solver_returns_iff hold, so the eigensolver and the Hamiltonian step return for numiter = 1 (also
+        by evaluation of the Krylov model) and do not return for numiter = 0 or for the zero tensor of the same shape. ---- *)
+Example C02_returns_nonvacuous :
+  uniform QcF ex6_Am /\ norm_ok QcF (site_vec QcF 4 1 1 ex6_Am, ex6_dnorm (site_vec QcF 4 1 1 ex6_Am)) /\
+  site_dot ex6_Am ex6_Am <> k0 CQ /\
+  keig_lanczos_returns QcF ex6_dnorm ex6_small ex6_deigh 1 ex6_BL ex6_BL ex6_W ex6_Am /\
+  kexp_lanczos_returns QcF ex6_dnorm ex6_small ex6_deigh ex6_dexp ex6_dexpm 1 ex6_BL ex6_BL ex6_W ex6_Am (k1 CQ) /\
+  ~ keig_lanczos_returns QcF ex6_dnorm ex6_small ex6_deigh 0 ex6_BL ex6_BL ex6_W ex6_Am /\
+  ~ keig_lanczos_returns QcF ex6_dnorm ex6_small ex6_deigh 1 ex6_BL ex6_BL ex6_W ex6_zero /\
+  match eigh_krylov QcF (flat_op QcF 4 1 1 (apply_local_hamiltonian ex6_BL ex6_BL ex6_W)) ex6_dnorm ex6_small ex6_deigh
+                    (site_vec QcF 4 1 1 ex6_Am) 1 1 with Some _ => true | None => false end = true.
+Proof.
+  assert (HU : uniform QcF ex6_Am) by (split; [cbn; lia|apply OperationEntries.site_shape_ok; vm_compute; reflexivity]).
+  assert (HN : norm_ok QcF (site_vec QcF 4 1 1 ex6_Am, ex6_dnorm (site_vec QcF 4 1 1 ex6_Am))) by (apply norm_okb_ok; vm_compute; reflexivity).
+  assert (HZ : site_dot ex6_Am ex6_Am <> k0 CQ).
+  { intros E. apply (f_equal (fun z => keqb CQ z (k0 CQ))) in E. vm_compute in E. discriminate E. }
+  assert (HU0 : uniform QcF ex6_zero) by (split; [cbn; lia|apply OperationEntries.site_shape_ok; vm_compute; reflexivity]).
+  assert (HN0 : norm_ok QcF (site_vec QcF 4 1 1 ex6_zero, ex6_dnorm (site_vec QcF 4 1 1 ex6_zero))) by (apply norm_okb_ok; vm_compute; reflexivity).
+  split; [exact HU|]. split; [exact HN|]. split; [exact HZ|].
+  split; [apply (keig_returns_iff QcF ex6_dnorm ex6_small ex6_deigh 1 ex6_BL ex6_BL ex6_W ex6_Am HU HN); split; [lia|exact HZ]|].
+  split; [apply (kexp_returns_iff QcF ex6_dnorm ex6_small ex6_deigh ex6_dexp ex6_dexpm 1 ex6_BL ex6_BL ex6_W ex6_Am (k1 CQ) HU HN); split; [lia|exact HZ]|].
+  split. { intros H. apply (keig_returns_iff QcF ex6_dnorm ex6_small ex6_deigh 0 ex6_BL ex6_BL ex6_W ex6_Am HU HN) in H. destruct H as [H _]. lia. }
+  split. { intros H. apply (keig_returns_iff QcF ex6_dnorm ex6_small ex6_deigh 1 ex6_BL ex6_BL ex6_W ex6_zero HU0 HN0) in H. destruct H as [_ H].
+           apply H. apply (keqb_spec CQ). vm_compute. reflexivity. }
+  vm_compute. reflexivity.
+Qed.
